@@ -32,12 +32,53 @@ pub fn base_url() -> String {
     format!("http://127.0.0.1:{}", PORT.load(Ordering::SeqCst))
 }
 
+// a TCP socket bound to 127.0.0.1:port with SO_REUSEADDR + SO_REUSEPORT (port 0 = any); not yet listening
+fn bind_reuse(port: u16) -> Option<i32> {
+    unsafe {
+        let fd = libc::socket(libc::AF_INET, libc::SOCK_STREAM | libc::SOCK_CLOEXEC, 0);
+        if fd < 0 {
+            return None;
+        }
+        let one: libc::c_int = 1;
+        for opt in [libc::SO_REUSEADDR, libc::SO_REUSEPORT] {
+            libc::setsockopt(fd, libc::SOL_SOCKET, opt, &one as *const _ as *const libc::c_void, 4);
+        }
+        let addr = libc::sockaddr_in {
+            sin_family: libc::AF_INET as u16,
+            sin_port: port.to_be(),
+            sin_addr: libc::in_addr { s_addr: u32::from_ne_bytes([127, 0, 0, 1]) },
+            sin_zero: [0; 8],
+        };
+        if libc::bind(fd, &addr as *const _ as *const libc::sockaddr, std::mem::size_of::<libc::sockaddr_in>() as u32) != 0 {
+            libc::close(fd);
+            return None;
+        }
+        Some(fd)
+    }
+}
+
+fn listen_on(port: u16) -> Option<TcpListener> {
+    use std::os::unix::io::FromRawFd;
+    let fd = bind_reuse(port)?;
+    unsafe {
+        if libc::listen(fd, 128) != 0 {
+            libc::close(fd);
+            return None;
+        }
+        Some(TcpListener::from_raw_fd(fd))
+    }
+}
+
 pub fn start() {
     if enabled() {
         return;
     }
-    let l = TcpListener::bind("127.0.0.1:0").expect("bind");
+    let l = listen_on(0).expect("bind");
     let port = l.local_addr().unwrap().port();
+    // a second socket, bound but never listening, keeps the port ours while the listener is closed to
+    // refuse connections (nobody else can be handed this port in the meantime)
+    let reserve = bind_reuse(port).expect("reserve port");
+    std::mem::forget(reserve);
     PORT.store(port, Ordering::SeqCst);
     LISTENING.store(true, Ordering::SeqCst);
     std::thread::spawn(move || accept_loop(l, port));
@@ -63,12 +104,12 @@ fn accept_loop(first: TcpListener, port: u16) {
             continue;
         }
         if l.is_none() {
-            match TcpListener::bind(("127.0.0.1", port)) {
-                Ok(x) => {
+            match listen_on(port) {
+                Some(x) => {
                     l = Some(x);
                     LISTENING.store(true, Ordering::SeqCst);
                 }
-                Err(_) => {
+                None => {
                     std::thread::sleep(std::time::Duration::from_millis(2));
                     continue;
                 }
